@@ -399,10 +399,10 @@ static void slot_fill(Slot &s) {
     u64 a = vf_u64();
     u64 b = vf_u64();
     u64 c = vf_u64();
-#ifdef KF_EXCL_C12_number_ctor_uninit
+#ifdef KF_EXCL_C12_ctor_payload_uninit
     b = 0;                 // concretely clean (an assumption would leave size/capacity symbolic during symbolic execution)
 #endif
-#ifdef KF_ONLY_C12_number_ctor_uninit
+#ifdef KF_ONLY_C12_ctor_payload_uninit
     b = 0x0000000500000000ULL;   // one concrete instance of "not clean": read back as size 0, capacity 5 (a symbolic one does not decide)
 #endif
     for (unsigned i = 0; i < 8; ++i) {
@@ -970,7 +970,7 @@ extern "C" void h_step() {
     }
 #endif
 
-#ifndef KF_ONLY_C12_number_ctor_uninit   // (that finding corrupts the value: the operation itself is the counterexample, nothing is observed after it)
+#ifndef KF_ONLY_C12_ctor_payload_uninit   // (that finding corrupts the value: the operation itself is the counterexample, nothing is observed after it)
     obs_doc(*v, m);
     if (t != nullptr) obs_doc(*t, tm);
     if (src != nullptr) src->~V();
